@@ -443,6 +443,10 @@ async fn history(args: &Value) -> Value {
     let r2b = a.connect_with_peer_id(b.local_addr(), c.peer_id()).await;
     tokio::time::sleep(Duration::from_millis(50)).await;
     steps.push(json!({"step": "A dials B's address naming C", "ok": r2b.is_ok(), "a_lists_c": a.peers().contains(&c.peer_id()), "a_still_lists_b": a.peers().contains(&b.peer_id())}));
+    // 2c. two dials of B's address AT THE SAME TIME, one without an expected identity and one naming C: the first may succeed, the second must fail
+    let (r2c_plain, r2c_pinned) = tokio::join!(a.connect(b.local_addr()), a.connect_with_peer_id(b.local_addr(), c.peer_id()));
+    tokio::time::sleep(Duration::from_millis(50)).await;
+    steps.push(json!({"step": "A dials B's address twice at once, the second naming C", "plain_ok": r2c_plain.is_ok(), "pinned_ok": r2c_pinned.is_ok(), "a_lists_c": a.peers().contains(&c.peer_id()), "a_still_lists_b": a.peers().contains(&b.peer_id())}));
     // 3. A dials C without naming anyone: returns C's identity
     let r3 = a.connect(c.local_addr()).await;
     steps.push(json!({"step": "A dials C unnamed", "ok": r3.is_ok(), "returned_is_c": r3.as_ref().ok() == Some(&c.peer_id()), "a_lists_c_on_return": a.peers().contains(&c.peer_id())}));
